@@ -231,10 +231,29 @@ impl Index for HnswIndex {
             k
         })
         .saturating_add(n_tomb);
-        let raw_results =
+        let breadth = ef_search.saturating_add(n_tomb);
+        // Candidates as (internal index, L2 distance)
+        let raw_results: Vec<(usize, f32)> = if inner.index_to_tuple_id.len() <= breadth {
+            // The whole graph fits in the search breadth: scan it. This is exact and as
+            // cheap, whereas the graph search can miss nodes that are not reachable from its
+            // entry point (small or duplicate-heavy datasets) and return fewer than k results.
+            let mut all: Vec<(usize, f32)> = inner
+                ._storage
+                .iter()
+                .enumerate()
+                .map(|(idx, stored)| (idx, DistL2.eval(&prepared_query, stored)))
+                .collect();
+            all.sort_by(|a, b| a.1.partial_cmp(&b.1).unwrap_or(std::cmp::Ordering::Equal));
+            all.truncate(search_k);
+            all
+        } else {
             inner
                 .hnsw
-                .search(&prepared_query, search_k, ef_search.saturating_add(n_tomb));
+                .search(&prepared_query, search_k, breadth)
+                .into_iter()
+                .map(|neighbour| (neighbour.d_id, neighbour.distance))
+                .collect()
+        };
 
         // Map internal indices to tuple IDs using the stored mapping
         let mut results: Vec<(TupleId, f64)> = if is_manhattan {
@@ -242,8 +261,7 @@ impl Index for HnswIndex {
             let vectors = self.vectors.read();
             raw_results
                 .into_iter()
-                .filter_map(|neighbour| {
-                    let internal_idx = neighbour.d_id;
+                .filter_map(|(internal_idx, _)| {
                     if internal_idx < inner.index_to_tuple_id.len() {
                         let tuple_id = inner.index_to_tuple_id[internal_idx];
                         if tombstones.contains(&tuple_id) {
@@ -266,14 +284,13 @@ impl Index for HnswIndex {
         } else {
             raw_results
                 .into_iter()
-                .filter_map(|neighbour| {
-                    let internal_idx = neighbour.d_id;
+                .filter_map(|(internal_idx, raw_dist)| {
                     if internal_idx < inner.index_to_tuple_id.len() {
                         let tuple_id = inner.index_to_tuple_id[internal_idx];
                         if tombstones.contains(&tuple_id) {
                             return None;
                         }
-                        let dist = self.transform_distance(neighbour.distance);
+                        let dist = self.transform_distance(raw_dist);
                         Some((tuple_id, dist))
                     } else {
                         None
